@@ -259,6 +259,49 @@ class Index:
         except (OSError, ValueError):
             ref = {}
         by_fn, by_callee = {}, {}
+        self._method_renames = {}
+        if ref and os.environ.get("ALLFEDSA_NO_REFNAMES") != "1":
+            # methods (and module-level functions) renamed against the reference tree: in one class (file) exactly one reference name is gone
+            # and exactly one new name with the same parameter list has appeared, and the new name is defined nowhere else
+            all_defs = {}
+            parsed = {}
+            for rel in self.py_files("src"):
+                try:
+                    with open(self.path(rel), encoding="utf-8") as f:
+                        parsed[rel] = ast.parse(f.read())
+                except (SyntaxError, OSError):
+                    continue
+                for n in ast.walk(parsed[rel]):
+                    if isinstance(n, ast.FunctionDef):
+                        all_defs[n.name] = all_defs.get(n.name, 0) + 1
+            for rel, mod in parsed.items():
+                if rel not in ref:
+                    continue
+                groups = {None: [n for n in mod.body if isinstance(n, ast.FunctionDef)]}
+                for c in [n for n in mod.body if isinstance(n, ast.ClassDef)]:
+                    groups[c.name] = [m for m in c.body if isinstance(m, ast.FunctionDef)]
+                for cname, fns in groups.items():
+                    pre = (cname + ".") if cname else ""
+                    ref_here = {q[len(pre):]: v for q, v in ref[rel].items() if (q.startswith(pre) and "." not in q[len(pre):]) and (cname or "." not in q)}
+                    cur_here = {f.name: [a.arg for a in f.args.args] for f in fns}
+                    gone = [n for n in ref_here if n not in cur_here]
+                    came = [n for n in cur_here if n not in ref_here]
+                    import difflib
+                    sim = lambda a_, b_: difflib.SequenceMatcher(None, a_, b_).ratio()
+                    for new_name in came:
+                        cands = [g for g in gone if ref_here[g] == cur_here[new_name]]
+                        if not cands or all_defs.get(new_name, 0) != 1 or new_name.startswith("__"):
+                            continue
+                        others = [c_ for c_ in came if c_ != new_name and cur_here[c_] == cur_here[new_name]]
+                        if len(cands) == 1 and not others:
+                            best = cands[0]              # the only name gone with this parameter list
+                        else:
+                            # several methods of the same shape were renamed: the names decide, when they do so clearly and mutually
+                            best = max(cands, key=lambda g: sim(new_name, g))
+                            if sim(new_name, best) < 0.6 or any(sim(c_, best) >= sim(new_name, best) for c_ in others):
+                                continue
+                        if all_defs.get(best, 0) == 0 and best not in self._method_renames.values():
+                            self._method_renames[new_name] = best
         if ref and os.environ.get("ALLFEDSA_NO_REFNAMES") != "1":
             from .canon import unique_methods
             classes = self._class_table()
@@ -279,6 +322,8 @@ class Index:
                         defs.extend((f"{n.name}.{m.name}", n.name, m) for m in n.body if isinstance(m, ast.FunctionDef))
                 for qual, cname, fn in defs:
                     want = ref[rel].get(qual)
+                    if want is None and fn.name in self._method_renames:
+                        want = ref[rel].get((cname + "." if cname else "") + self._method_renames[fn.name])
                     a = fn.args
                     cur = [x.arg for x in a.args]
                     if want is None or len(want) != len(cur) or sorted(want) == sorted(cur) or a.vararg or a.kwarg or a.kwonlyargs or a.posonlyargs:
@@ -329,9 +374,19 @@ class Index:
 
     def _restore_reference_names(self, tree, rel):
         by_fn, by_callee = self._param_renames()
-        if not by_fn:
-            return 0
         n_done = 0
+        mren = getattr(self, "_method_renames", {})
+        if mren:
+            for n in ast.walk(tree):
+                if isinstance(n, ast.FunctionDef) and n.name in mren:
+                    n.name = mren[n.name]
+                    n_done += 1
+                elif isinstance(n, ast.Attribute) and n.attr in mren:
+                    n.attr = mren[n.attr]
+                elif isinstance(n, ast.Name) and n.id in mren and isinstance(n.ctx, ast.Load):
+                    n.id = mren[n.id]
+        if not by_fn:
+            return n_done
         defs = []
         for n in tree.body:
             if isinstance(n, ast.FunctionDef):
